@@ -70,7 +70,16 @@ func runC13(c *Ctx) {
 					}
 				}
 			}
-			return next(ctx, req)
+			// every other request (lists included) also spends time on both sides of the chain, so
+			// that requests of different clients overlap between "the handler has returned" and
+			// "the answer is encoded"
+			s.Yield("mw#before")
+			res, err := next(ctx, req)
+			s.Yield("mw#after")
+			if strings.HasSuffix(req.Method, "/list") {
+				s.Yield("mw#after2")
+			}
+			return res, err
 		}
 	}
 	visible := func(ctx context.Context, name string) bool {
